@@ -13,7 +13,10 @@ RULE = ('(spike_templates, spike_clusters) produced by random merge / split / re
         'with/without (diagonal dyadic) whitening, plus un-curated datasets incl. a last template without '
         'spikes; a quarter of the datasets on a probe-like layout of 16..20 sites (20..100 um pitch) whose coordinates '
         'are stored in every integer dtype (int8 .. uint64) or as floats, the neighbourhood (default 12) smaller than '
-        'the probe. One case = one loaded TemplateModel. non-trivial = curated dataset with a cluster stemming '
+        'the probe. One extra dataset in eight stores templates.npy in DOUBLE precision with values single precision cannot '
+        'hold (baseline 64..127 + 2^-28 ripple, no whitening): cluster waveforms must be built from the stored waveforms '
+        '(single-template clusters: exactly; means: within 2^-36), the whitened records are the stored values, the '
+        'unwhitened ones their single precision rounding (Lean roundNE). One case = one loaded TemplateModel. non-trivial = curated dataset with a cluster stemming '
         'from >= 2 templates')
 ASSUMPTIONS = ['the channel list of each template (get_template(t).channel_ids, property C05; whitened for the load-time '
                'cluster waveforms, unwhitened for the public accessor) is observed on the real model, checked with the C05 '
@@ -21,7 +24,9 @@ ASSUMPTIONS = ['the channel list of each template (get_template(t).channel_ids, 
                'only then given to the C08 model; the unwhitened waveforms are computed by the C05 model from the stored '
                'templates, the inverse whitening matrix (checked against the stored matrices) and template_scaling',
                'load-time cluster waveforms of clusters stemming from >= 2 templates: |real - exact| <= 2^-18 max(1, |exact|) '
-               '(DESIGN 3, multi-step float chain); single-template and empty clusters: exact equality',
+               '(DESIGN 3, multi-step float chain); single-template and empty clusters: exact equality; with double precision '
+               'templates.npy the whole chain (np.zeros float64, np.average) is double precision: |real - exact| <= 2^-36 max(1, |exact|) '
+               '(<= 6 templates of magnitude < 128: rounding error < 1e-13)',
                'public accessor: integer sums, one correctly rounded division (compared through Fraction, rtol 1e-9)']
 
 
@@ -78,9 +83,10 @@ def model_query(case, impl_res):
     wmi = DC.fracs(ok['wmi'])
     dense = []
     if spec.get('template_ind') is None:
+        fl = {'float_store': int(spec['_float_store'])} if spec.get('_float_store') else {}
         for unwh, recs in ((False, ok['recs_w']), (True, ok['recs_u'])):
             for t, rec in enumerate(recs):
-                dense.append(dict(p='C05', op='dense', wmi=wmi, scaling=scaling, Tw=DC.fracs(spec['templates'][t]), unwhiten=unwh,
+                dense.append(dict(fl, p='C05', op='dense', wmi=wmi, scaling=scaling, Tw=DC.fracs(spec['templates'][t]), unwhiten=unwh,
                                   positions=DC.fracs(spec['channel_positions']), shanks=spec.get('channel_shanks'),
                                   n_closest=n_closest, thr=DC.frac(thr), explicit=None,
                                   impl=dict(template=DC.fracs(rec['template']), channels=rec['channels'],
@@ -95,13 +101,14 @@ def model_query(case, impl_res):
 
 
 TOL32 = 2.0 ** -18        # DESIGN 3: multi-step float chain, float32 path
+TOL64 = 2.0 ** -36        # double precision templates.npy: the chain is double precision throughout
 
 
-def _close(got, exact_q):
-    """|got - exact| <= 2^-18 max(1, |exact|), entry by entry (exact = model rationals)"""
+def _close(got, exact_q, tol=TOL32):
+    """|got - exact| <= tol max(1, |exact|), entry by entry (exact = model rationals)"""
     e = np.array([[float(DC.to_fraction(x)) for x in row] for row in exact_q], dtype=np.float64)
     g = np.asarray(got, dtype=np.float64)
-    return g.shape == e.shape and bool(np.all(np.abs(g - e) <= TOL32 * np.maximum(1., np.abs(e))))
+    return g.shape == e.shape and bool(np.all(np.abs(g - e) <= tol * np.maximum(1., np.abs(e))))
 
 
 def judge(case, impl_res, ans):
@@ -124,7 +131,7 @@ def judge(case, impl_res, ans):
     if not curated:
         if ok['n_clusters'] != ok['n_templates']:
             return 'SPEC: un-curated dataset has %d clusters for %d templates' % (ok['n_clusters'], ok['n_templates'])
-        if ok['data'] != np.asarray(spec['templates'], dtype=np.float32).astype(np.float64).tolist():
+        if ok['data'] != np.asarray(spec['templates'], dtype=(spec.get('dtypes') or {}).get('templates', 'float32')).astype(np.float64).tolist():
             return 'SPEC: un-curated cluster waveforms are not the template waveforms'
         if ok['merge_map'] or ok['nan_idx']:
             return 'CORR: un-curated merge map not empty'
@@ -142,7 +149,7 @@ def judge(case, impl_res, ans):
             n = len(m['merge_map'][c])
             if n >= 2:
                 # a mean computed in floating point: any algebraically equal way of writing it is accepted
-                good = _close(a, M)
+                good = _close(a, M, TOL64 if spec.get('_float_store') == 53 else TOL32)
             else:
                 good = a == [[DC.to_float(x) for x in row] for row in M]
             if not good:
@@ -159,6 +166,8 @@ def judge(case, impl_res, ans):
             t, unwh = k % nt, k >= nt
             if 'err' in r:
                 return 'MACHINERY: driver error in the channel-list query of template %d: %s' % (t, r['err'])
+            if r.get('ptp_exact') is False or (unwh and r.get('one_term') is False):
+                continue        # floating-point class: max - min / the dot product rounds on this waveform - no exact verdict
             if r.get('impl_spec') is not True:
                 return ('SPEC: the %s record of template %d (channels %s) is not the %stemplate on the nearest same-shank channels '
                         'reaching the threshold, ordered by amplitude (C05), so cluster means are restricted to wrong channels / '
@@ -194,6 +203,8 @@ def nontrivial(case):
 def tally(rep, case, impl_res, ans):
     rep.count('template_scaling:%s' % (case['spec'].get('template_scaling') or 1))
     spec = case['spec']
+    if spec.get('_float_store'):
+        rep.count('templates.npy in double precision, values beyond single precision (baseline + 2^-28 ripple)')
     rep.count('curated:%s' % (spec.get('spike_clusters') is not None and spec['spike_clusters'] != spec['spike_templates']))
     rep.count('shanks:%s' % (spec.get('channel_shanks') is not None))
     rep.count('positions_dtype:%s%s' % ((spec.get('dtypes') or {}).get('channel_positions', 'float64'),
@@ -219,9 +230,22 @@ def shrink(case):
             yield dict(case, cs=[c])
 
 
+def _float64_case(rng, i):
+    """templates.npy in double precision holding values single precision cannot hold, no whitening, no scaling: every
+    load-time waveform (whitened path) is the stored double precision one; the public accessor (which averages
+    single precision roundings) is not queried"""
+    spec = DC.dense_spec(rng, curated=(i % 5 != 0), feats=False, empty=['none', 'last', 'random'][i % 3], whiten='none',
+                         nt=rng.randrange(2, 6))
+    spec.pop('template_scaling', None)
+    spec = DC.inexact_float_spec(rng, spec, store64=True, whiten='none')
+    return dict(p=PID, spec=spec, cs=[], reopen=(i % 4 == 2))
+
+
 def gen(tier, rng):
     q = tier == 'quick'
     for i in range(250 if q else 5000):
+        if i % 8 == 3:
+            yield _float64_case(rng, i)      # in addition to the single precision datasets
         probe = i % 4 == 1
         spec = DC.dense_spec(rng, curated=(i % 5 != 0), feats=False, empty=['none', 'last', 'random'][i % 3],
                              nc=rng.pick([16, 16, 20]) if probe else None, nt=rng.randrange(2, 5) if probe else None)
